@@ -86,7 +86,14 @@ func (b *exampleBuilder) buildExampleForObjectNode(node *internalSchema.ObjectNo
 		buf.Write(ex)
 	}
 	buf.WriteRune('}')
-	return buf.Bytes(), nil
+	return copyOfBuffer(buf), nil
+}
+
+// copyOfBuffer returns a copy of the buffer content. The buffer goes back to the
+// pool when the builder returns, so its own bytes must not escape: the next user
+// of the pool (a later Example call, or another goroutine) would overwrite them.
+func copyOfBuffer(buf *stdBytes.Buffer) []byte {
+	return append([]byte(nil), buf.Bytes()...)
 }
 
 func (b *exampleBuilder) buildObjectKey(k internalSchema.ObjectNodeKey) ([]byte, error) {
@@ -140,7 +147,7 @@ func (b *exampleBuilder) buildExampleForArrayNode(node *internalSchema.ArrayNode
 		buf.Write(ex)
 	}
 	buf.WriteRune(']')
-	return buf.Bytes(), nil
+	return copyOfBuffer(buf), nil
 }
 
 func (b *exampleBuilder) buildExampleForMixedValueNode(node *internalSchema.MixedValueNode) ([]byte, error) {
